@@ -807,6 +807,7 @@ func runC11(r *Run) {
 	c11FailedReset(r)
 	c11SlowPeerLateFrame(r)
 	c11ChanTwoAbandoned(r)
+	c11HttpDeadlineWrite(r)
 	maxN := r.Scale(4, 8)
 	maxBy := r.Scale(2, 4)
 	if r.Want("early") {
